@@ -10,7 +10,7 @@
    the value get_work hands to its caller is the name of the pushed item.
 
    Op language: a thread's program is the list of its pushes, op = Push item
-   or PushFF item (a push marked "fast-forward", see below).  The documented
+   or PushFF j item (a push marked "fast-forward" by table entry j, see below).  The documented
    protocol is part of the control state: when a push returns
    WORK_QUEUE_START_WORKING the thread calls work_queue_get_work until it
    returns WORK_QUEUE_EMPTY, then goes on with its next push.
@@ -19,8 +19,10 @@
    momentarily runs dry, so in a session that never drains they grow without
    bound; no test can afford 2^32 real pushes.  A push marked PushFF that
    returns START_WORKING is followed by ONE extra step of the fresh worker,
-   before its first get_work: it adds the constant FFAMT = 2^32 - 3 to BOTH
-   in_count and out_count.  This is exactly the state the public API reaches
+   before its first get_work: it adds the constant FFAMT = ffamt j = 2^k - 3,
+   k = 32, 20, 16, 31, 24, 8, 12, 36 for j = 0..7 (so that, as the next items
+   are pushed / handed out, in_count and out_count pass 2^k - 2, 2^k - 1, 2^k,
+   2^k + 1 ... for each of these widths), to BOTH in_count and out_count.  This is exactly the state the public API reaches
    when the fresh worker performs FFAMT times (push one more item; get one
    item): in_count = i + FFAMT, out_count = FFAMT, the same number of queued
    items -- modulo the identity of the queued items.  It is done only by the
@@ -60,16 +62,21 @@ Inductive pcT :=
 
 (* flag = this thread has been designated the worker (its add_and_fetch saw
    in_count become 1) and has not yet been told EMPTY *)
-Inductive op := Push (a : nat) | PushFF (a : nat).
-Definition item (o : op) : nat := match o with Push a | PushFF a => a end.
-Definition marked (o : op) : bool := match o with Push _ => false | PushFF _ => true end.
+Inductive op := Push (a : nat) | PushFF (j : nat) (a : nat).
+Definition item (o : op) : nat := match o with Push a | PushFF _ a => a end.
+Definition marked (o : op) : option nat := match o with Push _ => None | PushFF j _ => Some j end.
 
-(* 2^32 - 3, a Z constant *)
+(* the fast-forward amounts: 2^k - 3 for k = 32 20 16 31 24 8 12 36, Z constants
+   (the only fact the proofs use is 0 <= ffamt j) *)
 Definition FFAMT : Z := 4294967293%Z.
+Definition ffamt (j : nat) : Z :=
+  nth j [FFAMT; 1048573; 65533; 2147483645; 16777213; 253; 4093; 68719476733]%Z FFAMT.
 
-(* mk = the current push is marked fast-forward *)
+(* mk = Some j: the current push is marked fast-forward with table entry j *)
 Record tst := { pc : pcT; arg : nat; flag : bool; prev : nat; ph : nat; pn : nat;
-                rd : nat; oc : Z; prog : list op; opi : nat; mk : bool }.
+                rd : nat; oc : Z; prog : list op; opi : nat; mk : option nat }.
+
+Definition ffof (T : tst) : Z := match mk T with Some j => ffamt j | None => 0%Z end.
 
 Record st := { head : nat; tail : nat; inc : Z; outc : Z;
                next : nat -> nat; data : nat -> nat;
@@ -80,7 +87,7 @@ Record st := { head : nat; tail : nat; inc : Z; outc : Z;
 Definition next_op (T : tst) : tst :=
   match prog T with
   | [] => {| pc := Fin; arg := arg T; flag := false; prev := prev T; ph := ph T; pn := pn T;
-             rd := rd T; oc := oc T; prog := []; opi := opi T; mk := false |}
+             rd := rd T; oc := oc T; prog := []; opi := opi T; mk := None |}
   | o :: r => {| pc := PAdd; arg := item o; flag := false; prev := 0; ph := 0; pn := 0;
                  rd := 0; oc := 0%Z; prog := r; opi := S (opi T); mk := marked o |}
   end.
@@ -137,10 +144,10 @@ Definition step (s : st) (t : nat) : st * list Z :=
           nthr := nthr s |},
        evn t (nextloc (prev T)) 19 (arg T) ++ pret t T (if flag T then 1 else 0)%Z)
   | GFfwd =>
-      ({| head := head s; tail := tail s; inc := (inc s + FFAMT)%Z; outc := (outc s + FFAMT)%Z;
+      ({| head := head s; tail := tail s; inc := (inc s + ffof T)%Z; outc := (outc s + ffof T)%Z;
           next := next s; data := data s;
           thr := upd (thr s) t (with_pc T GHead); nthr := nthr s |},
-       ev t 2 919 FFAMT)
+       ev t 2 919 (ffof T))
   | GHead =>
       (set_thr s t {| pc := GNext; arg := arg T; flag := flag T; prev := prev T; ph := head s;
                       pn := pn T; rd := rd T; oc := oc T; prog := prog T; opi := opi T; mk := mk T |},
@@ -203,7 +210,7 @@ Definition status_of (s : st) (t : nat) : status :=
 
 Definition idle_thread (p : list op) : tst :=
   next_op {| pc := Fin; arg := 0; flag := false; prev := 0; ph := 0; pn := 0; rd := 0;
-             oc := 0%Z; prog := p; opi := 0; mk := false |}.
+             oc := 0%Z; prog := p; opi := 0; mk := None |}.
 
 Definition stub : nat := 1.
 
@@ -217,9 +224,12 @@ Definition M : machine :=
   {| mstate := st; mstep := step; mstatus := status_of; mthreads := nthr |}.
 
 (* ---------- executable entry point for the correspondence run ---------- *)
-(* (1, item) = push, (2, item) = push marked fast-forward *)
+(* (1, item) = push, (10 + j, item) = push marked fast-forward with table
+   entry j, (2, item) = the same with j = 0 *)
 Definition dec_op (p : Z * Z) : op :=
-  if (fst p =? 2)%Z then PushFF (Z.to_nat (snd p)) else Push (Z.to_nat (snd p)).
+  if (fst p =? 2)%Z then PushFF 0 (Z.to_nat (snd p))
+  else if (10 <=? fst p)%Z then PushFF (Z.to_nat (fst p - 10)) (Z.to_nat (snd p))
+  else Push (Z.to_nat (snd p)).
 
 Definition run_case (l : list Z) : list Z :=
   match decode_case l with
